@@ -64,13 +64,13 @@ case "$cmd" in
     shift
     exec "$BIN/simcheck" selftest "$@"
     ;;
-  C09|C12|C13|C14|C15)
+  C12|C13|C14|C15)
     build_locked || exit 2
-    exec "$BIN/simcheck" run "$cmd" "${2:-quick}"
+    exec "$BIN/simcheck" run "$cmd" "${2:-${VERIF_TIER:-quick}}"
     ;;
-  C10|C11)
+  C09|C10|C11)
     build_locked race || exit 2
-    exec "$BIN/simcheck" run "$cmd" "${2:-quick}"
+    exec "$BIN/simcheck" run "$cmd" "${2:-${VERIF_TIER:-quick}}"
     ;;
   *)
     echo "usage: $0 build | <C09..C15> <quick|thorough> | replay <file> | selftest" >&2
